@@ -704,7 +704,8 @@ impl<'i> ValidatorErrorBuilder<'i> {
 
     /// Check that all variables were defined.
     fn check_undefined_variables(mut self) -> Self {
-        for (name, span) in self.validator.unresolved_variables.iter() {
+        // MultiMap::iter yields only the first span of each name
+        for (name, span) in self.validator.unresolved_variables.flat_iter() {
             if !self.validator.contains_variable(name, *span) {
                 let error = ParserError::undefined_variable(*span, *name);
                 add_to_errors(&mut self.errors, *span, Token::Call, error);
@@ -716,7 +717,7 @@ impl<'i> ValidatorErrorBuilder<'i> {
 
     /// Check that all iterables in fold blocks were defined.
     fn check_undefined_iterables(mut self) -> Self {
-        for (name, span) in self.validator.unresolved_iterables.iter() {
+        for (name, span) in self.validator.unresolved_iterables.flat_iter() {
             if self.find_closest_fold_span(name, *span).is_none() {
                 let error = ParserError::undefined_iterable(*span, *name);
                 add_to_errors(&mut self.errors, *span, Token::New, error);
